@@ -646,9 +646,10 @@ class CompositeDataSource(DataSource):
         if not self.has_data_sources():
             raise AttributeError("CompositeDataSource has no data sources")
 
-        results = []
-        for ds in self.data_sources:
-            results.extend(ds.related_to(*args, **kwargs))
+        # The relationship and the related object may be held by different
+        # data sources, so navigate on top of the federated relationships()
+        # and query() rather than asking each data source separately.
+        results = super(CompositeDataSource, self).related_to(*args, **kwargs)
 
         # remove exact duplicates (where duplicates are STIX 2.0
         # objects with the same 'id' and 'modified' values)
